@@ -467,6 +467,16 @@ def rule_every_record_kept(prog, rep):
     filt = [c for c in chain if "pdblist =" in c and "get_molecule" not in c and "drop_water" not in c]
     r.add("no-other-filter", not filt, f"statements of main_driver that rebind the record list: {[c for c in chain if 'pdblist =' in c or 'pdblist, ' in c]}",
           f"pdb2pqr/main.py:{md.lineno} (main_driver)")
+    # create_residue hands the pending records to the residue class unfiltered
+    cr = prog.func("biomolecule.py", "Biomolecule.create_residue").node
+    p0 = cr.args.args[1].arg
+    rebinds = [x for x in iter_stmts(cr.body) if isinstance(x, ast.Assign) and any(U(tg) == p0 for tg in x.targets)]
+    badr = [U(x.value)[:60] for x in rebinds if not (isinstance(x.value, ast.Call) and x.value.args and U(x.value.args[0]) == p0
+                                                       and not isinstance(x.value.func, ast.Attribute) or
+                                                       (isinstance(x.value, ast.Call) and x.value.args and U(x.value.args[0]) == p0 and U(x.value.func) in ("klass", "residue_.Residue")))]
+    r.add("create_residue-unfiltered", not badr and bool(rebinds), f"the record list {p0!r} is only replaced by the residue object built from it"
+          if not badr else f"the record list is filtered before the residue is built ({badr[0]}): records are dropped without a message",
+          f"pdb2pqr/biomolecule.py:{cr.lineno} (Biomolecule.create_residue)")
     sm = prog.func("main.py", "setup_molecule").node
     r.add("setup-passes-all", "biomol.Biomolecule(pdblist, definition)" in U(sm), "setup_molecule hands the whole record list to Biomolecule",
           f"pdb2pqr/main.py:{sm.lineno} (setup_molecule)")
